@@ -770,3 +770,57 @@ rproof!(r_key_new_bfree, key_write(true, true));
 rproof!(r_key_new_bused, key_write(true, false));
 
 
+
+
+/// key file: delete_piece and the slot walk (same code paths as the value file through the
+/// generic PieceA / push_free_piece_list, instantiated for key records)
+rproof!(r_key_delete_walk, r_key_delete_walk_body());
+fn r_key_delete_walk_body() {
+    set_key_file(true);
+    let mut f = VarFile::model(kp::piece_mgr());
+    let sa = any_slot_size();
+    let sb = any_slot_size();
+    let la: u32 = kani::any();
+    let lb: u32 = kani::any();
+    kani::assume(la <= 300 && lb <= 300);
+    let oa = 192u64;
+    let ob = oa + sa as u64;
+    let al = || {
+        let o: u64 = kani::any();
+        kani::assume(o % 8 == 0 && o < (1u64 << 56));
+        o
+    };
+    f.slots[0] = used_key(oa, sa, la, kani::any(), al(), al());
+    f.slots[1] = used_key(ob, sb, lb, kani::any(), al(), al());
+    f.end = ob + sb as u64;
+    check_i1(&f, true);
+    let keep_b = f.slots[1];
+    let kfile = kp::key_file::<DbBytes>(f);
+    let r = ok(kfile.delete_piece(KeyPieceOffset::new(oa)));
+    assert!(r.as_value() == sa);
+    kp::with_var_file(&kfile, |f| {
+        check_i1(f, true);
+        let s = slot_at(f, oa);
+        assert!(s.live && s.body == 2 && s.size * 8 == sa as u64, "deleted key record is not a free record of its own size");
+        assert!(list_pos(f, head_word(true, sa), oa) == 0, "deleted key record is not the head of its free list");
+        let b = slot_at(f, ob);
+        assert!(b.nf == keep_b.nf && b.len == keep_b.len && b.o1 == keep_b.o1 && b.o2 == keep_b.o2, "neighbour key record modified by a delete");
+        f.ro = true;
+    });
+    // the slot walk sees the freed slot (length 0) and the live one, once each, then ends
+    let mut it = kfile.piece_offset_iter();
+    match it.next() {
+        Some(x) => assert!(x.as_value() == oa),
+        None => assert!(false, "slot walk ended early"),
+    }
+    assert!(ok(kfile.read_piece_only_key_length(KeyPieceOffset::new(oa))).as_value() == 0, "a freed key slot must read as key length 0");
+    match it.next() {
+        Some(x) => assert!(x.as_value() == ob),
+        None => assert!(false, "slot walk ended early"),
+    }
+    assert!(ok(kfile.read_piece_only_key_length(KeyPieceOffset::new(ob))).as_value() == lb);
+    assert!(ok(kfile.read_piece_only_size(KeyPieceOffset::new(ob))).as_value() == sb);
+    assert!(it.next().is_none(), "slot walk yields more slots than the file holds");
+    core::mem::forget(it);
+    core::mem::forget(kfile);
+}
